@@ -42,7 +42,8 @@ def eq_guard(gs, pred_a, pred_b):
 
 
 def run(res, tier):
-    fx = common.load_units(res, ['iogateway/PacketTunnelIOGateway.cpp', 'iogateway/MiniPacketTunnelIOGateway.cpp'], fn_regex=r'^muscle::(Mini)?PacketTunnelIOGateway')
+    fx = common.load_units(res, ['iogateway/PacketTunnelIOGateway.cpp', 'iogateway/MiniPacketTunnelIOGateway.cpp', 'dataio/ByteBufferPacketDataIO.cpp', 'dataio/PacketizedProxyDataIO.cpp', 'iogateway/ProxyIOGateway.cpp'],
+                           fn_regex=r'^muscle::((Mini)?PacketTunnelIOGateway|ByteBufferPacketDataIO|PacketizedProxyDataIO|ProxyIOGateway)')
     f = fx.fn1(PT + '::DoInputImplementation')
     res.functions_analysed = sum(1 for g in fx.funcs.values() if g.full)
     res.rule('GUARD-ATOMS', 'PacketTunnelIOGateway::DoInputImplementation: the memcpy into the reassembly buffer is dominated by every atom of the acceptance test, the receive state is looked up by the '
@@ -258,6 +259,91 @@ def run(res, tier):
     res.ob('HEADER-ORDER', w.where(), 'the writer sends exactly `chunk` bytes starting at the announced offset of the current buffer', okp, function=w.q, key='HEADER-ORDER|%s|payload' % PT,
            message='the fragment payload no longer is buffer[offset .. offset+chunk) as announced in its header')
     mini_rule(res, fx)
+    # ---- FIT-ACCOUNT: the sender's "does the next chunk fit into this packet" test counts exactly the bytes the branch then writes
+    res.rule('FIT-ACCOUNT', 'MiniPacketTunnelIOGateway::DoOutputImplementation: in `written + X <= MTU` the constant part of X that applies to every chunk equals the fixed bytes the guarded branch always writes, '
+                            'and the part that applies only to an empty packet equals what it writes only then', floor=1)
+    g = fx.fn1(MPT + '::DoOutputImplementation')
+    fit = None
+    for blk in g.blocks.values():
+        if blk.cond is None or blk.cond not in g.nodes:
+            continue
+        cn = g.nodes[blk.cond]
+        if cn['k'] == 'BinaryOperator' and cn.get('op') == '<=' and A.strip_casts(cn['ch'][1]).get('n') == '_maxTransferUnit' and any(x.is_call() and (x.get('q') or '').endswith('::GetNumBytesWritten') for x in cn['ch'][0].walk()):
+            fit = (blk, cn)
+    if fit is None:
+        raise AnalysisBroken('FIT-ACCOUNT: the fit test of the mini tunnel sender was not found')
+    blk, cn = fit
+
+    def terms(e):
+        e = A.strip_casts(e)
+        if e['k'] == 'BinaryOperator' and e.get('op') == '+' and 'v' not in e:
+            return terms(e['ch'][0]) + terms(e['ch'][1])
+        return [e]
+    always_c, first_c = 0, 0
+    for t in terms(cn['ch'][0]):
+        if 'v' in t:
+            always_c += t['v']
+        elif t['k'] == 'ConditionalOperator' and any(x.is_call() and (x.get('q') or '').endswith('::GetNumBytesWritten') for x in t['ch'][0].walk()):
+            first_c += (A.strip_casts(t['ch'][1]).get('v') or 0) + (A.strip_casts(t['ch'][2]).get('v') or 0)
+    W = {'WriteInt32': 4, 'WriteInt16': 2, 'WriteInt64': 8, 'WriteByte': 1, 'WriteInt8': 1}
+    always_w, first_w = 0, 0
+    for c in g.walk():
+        if c['k'] != 'CXXMemberCallExpr' or (c.get('q') or '').split('::')[-1] not in W:
+            continue
+        p = P.pos_of(g, c)
+        gs = C.guards_of_block(g, p[0]) if p else []
+        if not any(cid == cn['i'] and t for (cid, t) in gs):
+            continue
+        only_first = False
+        for (cid, t) in gs:
+            x = g.nodes[cid]
+            if x is not cn and x['k'] == 'BinaryOperator' and x.get('op') == '==' and t and any(y.is_call() and (y.get('q') or '').endswith('::GetNumBytesWritten') for y in x.walk()) \
+                    and any(A.strip_casts(y).get('v') == 0 for y in x['ch']):
+                only_first = True
+        if only_first:
+            first_w += W[(c.get('q') or '').split('::')[-1]]
+        else:
+            always_w += W[(c.get('q') or '').split('::')[-1]]
+    ok = (always_c == always_w) and (first_c == first_w) and always_w > 0 and first_w > 0
+    res.ob('FIT-ACCOUNT', g.where(cn), 'fit test counts %d bytes per chunk and %d more for an empty packet; the branch writes %d and %d' % (always_c, first_c, always_w, first_w), ok, function=g.q,
+           how='test `%s`' % cn.text(120), key='FIT-ACCOUNT|%s' % g.q,
+           message='MiniPacketTunnelIOGateway::DoOutputImplementation: the fit test accounts for %d fixed bytes per chunk (+%d for the first chunk of a packet) but the branch it guards writes %d (+%d): '
+                   'a chunk that does not fit is written past the packet buffer and the packet exceeds the MTU, so the receiver truncates it and drops the last Message' % (always_c, first_c, always_w, first_w))
+    # ---- REF-AFTER-REMOVE: a reference to a queue element is dead once the element has been removed (Queue::RemoveHead resets the vacated slot)
+    res.rule('REF-AFTER-REMOVE', 'in the packet I/O classes a local reference bound to a Queue element (Head()/Tail()/operator[]) is not used after a Remove*/Clear on the same queue', floor=1)
+    n_ref = 0
+    for h in sorted((h for h in fx.funcs.values() if h.full), key=lambda h: (h.file, h.line, h.id)):
+        for v in h.walk():
+            if v['k'] != 'VarDecl' or not v['ch'] or not v.type().rstrip().endswith('&'):
+                continue
+            init = A.strip_casts(v['ch'][0])
+            if not (init.is_call() and re.search(r'Queue::(Head|Tail|operator\[\]|GetItemAt)$', init.get('q') or '') and init.receiver() is not None):
+                continue
+            Q = P_canon(init.receiver())
+            rms = [c for c in h.walk() if c['k'] == 'CXXMemberCallExpr' and re.search(r'Queue::(Remove\w*|Clear)$', c.get('q') or '') and c.receiver() is not None and P_canon(c.receiver()) == Q]
+            if not rms:
+                continue
+            n_ref += 1
+            # references derived from it (const X & y = b.Get...()) are dead as well
+            dead = set([v['d']])
+            for w in h.walk():
+                if w['k'] == 'VarDecl' and w['ch'] and w.type().rstrip().endswith('&') and any(x['k'] == 'DeclRefExpr' and x.get('d') in dead for x in w['ch'][0].walk()):
+                    dead.add(w['d'])
+            bad = None
+            for rm in rms:
+                rp = P.pos_of(h, rm)
+                for u in h.walk():
+                    if u['k'] == 'DeclRefExpr' and u.get('d') in dead:
+                        up = P.pos_of(h, u)
+                        if rp and up and ((rp[0] == up[0] and rp[1] < up[1]) or C.can_reach(h, rp, set([up]))):
+                            bad = (rm, u)
+            res.ob('REF-AFTER-REMOVE', h.where(v), '%s: reference `%s` to an element of %s is not used after the element is removed' % (h.q.split('::')[-1], v.get('n'), init.receiver().text(20)), bad is None,
+                   function=h.q, key='REF-AFTER-REMOVE|%s|%s' % (h.q, v.get('n')),
+                   message='%s: `%s` refers to an element of %s and is used at line %s after %s at line %s removed that element (the vacated slot is reset to a default item): the value read is empty — '
+                           'here the packet\'s source address, which is the key of the tunnel\'s per-sender reassembly state' % (h.q, bad[1].get('n') if bad else '', init.receiver().text(20),
+                                                                                                                   bad[1].get('l') if bad else '', (bad[0].get('q') or '').split('::')[-1] if bad else '', bad[0].get('l') if bad else ''))
+    if n_ref < 1:
+        raise AnalysisBroken('REF-AFTER-REMOVE: no queue-element reference followed by a removal found (ByteBufferPacketDataIO::ReadFrom expected)')
     res.explanation = ('Static decision of the tunnel\'s acceptance structure: the operands of the reassembly memcpy are identified (state buffer + wire offset, reader pointer, wire chunk size) and each atom of the '
                        'acceptance test is required on a dominating branch edge — same source-keyed state, message id, offset, total size, overflow test, bounds, bytes available, magic — plus the '
                        'source-exclusion disjunction on every path; a Message starts only at offset 0; hand-off only for a complete buffer; writer/reader header order agrees. '
